@@ -437,14 +437,24 @@ class simplify_chained_calls(FuncADLNodeTransformer):
         if type(call_node.func) is ast.Lambda:
             arg_asts = [self.visit(a) for a in call_node.args]
             keyword_asts = [(k.arg, self.visit(k.value)) for k in call_node.keywords]
+
+            # The arguments come from the scope outside the lambda, and can use a variable
+            # that has the same name as one of the lambda's parameters. Once they have been
+            # put in place they may be visited again (what a fusion rule builds is re-visited),
+            # so the parameters get names nothing else uses before anything is substituted.
+            old_names = [a.arg for a in call_node.func.args.args]
+            func = make_args_unique(call_node.func)
+            new_names = [a.arg for a in func.args.args]
+            renamed = dict(zip(old_names, new_names))
+
             with stack_frame(self._arg_stack):
-                for a_name, arg in zip(call_node.func.args.args, arg_asts):
-                    self._arg_stack.define_name(a_name.arg, arg)
+                for a_name, arg in zip(new_names, arg_asts):
+                    self._arg_stack.define_name(a_name, arg)
                 for k_name, arg in keyword_asts:
-                    if k_name is not None:
-                        self._arg_stack.define_name(k_name, arg)
+                    if k_name in renamed:
+                        self._arg_stack.define_name(renamed[k_name], arg)
                 # Now, evaluate the expression, and then lift it.
-                return self.visit(call_node.func.body)
+                return self.visit(func.body)
         elif _is_method_call_on_first(call_node):
             return self.select_method_call_on_first(call_node)
         else:
